@@ -22,9 +22,8 @@ def hint_kind(h):
         return "none"
     k = "%d-given" % (3 - list(h).count(None))
     return k + ("+index0" if 0 in h else "")
-RULE = ("ATOMS ARE ALWAYS STORED INSIDE THE CELL (fractional coordinates in [0,1)); observation, outside the quantifier: atoms "
-        "stored outside the cell are silently mishandled (matches lost; load_lmpdat does not wrap). "
-        "periodic structures with 1-3 planted rigid copies (per-atom perturbation up to atol/8 ... 0.35 atol un-hinted; "
+RULE = ("a share of the structures (30 % random, 25 % grid) stores its atoms OUTSIDE the cell (per-atom lattice shifts of up to "
+        "+-2 cells; repaired by 517adff); periodic structures with 1-3 planted rigid copies (per-atom perturbation up to atol/8 ... 0.35 atol un-hinted; "
         "with hints atol/8 or atol/40 according to the lever ratios of the triple; hints spelled int / negative / numpy) of 11 patterns (1-5 atoms; "
         "asymmetric, symmetric, planar, collinear, chiral) in orthorhombic / triclinic(+/- tilt) / arbitrarily rotated "
         "cells, 20 % of them with smallest width only 0.1-30 % above diameter+2*atol; streams: occurrences sharing atoms "
@@ -145,6 +144,8 @@ def grid_case(seed, task):
     case = g.planted(rng, pname, ck, [(pose, list(fr))], atol=atol, ndecoy=nd, tight=tight,
                      perturb_div=40.0 if hinted else 8.0)
     hints = g.pick_hints(rng, case["pattern"]["pos"]) if (hinted and case is not None) else (None, None, None)
+    if case is not None and rng.random() < 0.25:
+        case = g.unwrap(case, rng)                   # boundary-straddling copy whose atoms are stored in other cells
     return case, atol, hints
 
 
@@ -367,6 +368,9 @@ def run(ctx, oracle_only=False, scale=1):
             ctx.count("generator:rejected")
             continue
         made += 1
+        if rng.random() < 0.3:                       # the same crystal, atoms stored in other cells (up to +-2 cells away)
+            case = g.unwrap(case, rng)
+        ctx.count("stored:" + str(case["info"].get("stored", "inside the cell")))
         inp = inp_of(case, atol=atol, hints=[None if h is None else int(h) for h in hints], seed=rng.randrange(1 << 30))
         if spelling == "numpy":
             inp["hint_spelling"] = "numpy"
@@ -422,6 +426,8 @@ def run(ctx, oracle_only=False, scale=1):
             ctx.count("generator:rejected")
             continue
         made += 1
+        if made % 3 == 0:
+            case = g.unwrap(case, rng)
         inp = inp_of(case, atol=atol, seed=rng.randrange(1 << 30))
         res, bad = one(inp)
         ctx.case(inp, nontrivial=True)
